@@ -14,7 +14,7 @@ Definition le64 (t : N) : bytes := le_bytes 8 t.
 Definition all_zero (l : bytes) : bool := forallb (fun b => b =? 0) l.
 
 (* retries of `while x.is_zero() { x = Scalar::random(get_crypto_rng()) }` *)
-Definition RETRY_FUEL : nat := 16.
+Definition RETRY_FUEL : nat := 64.   (* = Refine.Prelude.WHILE_FUEL: the bound that stands for non-termination *)
 
 Section Protocols.
   Context {K : FieldOps} (O : Oracles K) (C : Impl) (dbg : bool).
@@ -106,7 +106,7 @@ Section Protocols.
   (* ================= sign_crypt.rs ================= *)
   Definition sc_compute_v (uar : pkpt) (r : bytes) : M bytes :=
     let v := xof O (enc O uar) (length r) in
-    dassert dbg (Nat.ltb (length r) 32 || negb (all_zero v)) (byte_xor dbg r v).
+    dassert dbg (Nat.ltb (length v) 32 || negb (all_zero v)) (byte_xor dbg r v).
 
   Definition sc_compute_w (u : pkpt) (v dst : bytes) : sigpt :=
     H (enc O u ++ v) dst.
@@ -160,7 +160,9 @@ Section Protocols.
       else if is_id u then ret_err InvalidInputs
       else
         let sig := pmul u sk in
-        dassert dbg (negb (is_id sig)) (Val (share_with (PK_LEN C) (sid sh) (enc O sig)))
+        (* the trait function stores the public-key-group point in a SignatureShare container
+           (not called by the wrapper API, which uses public_key_share_with_generator) *)
+        dassert dbg (negb (is_id sig)) (Val (share_with (SIG_LEN C) (sid sh) (enc O sig)))
     end.
 
   Definition sc_verify_share (sh pk u : pkpt) (v : bytes) (w : sigpt) (dst : bytes) : M bool :=
@@ -177,7 +179,7 @@ Section Protocols.
 
   Definition tl_compute_w (alpha msg : bytes) : M bytes :=
     let w := xof O alpha (length msg) in
-    dassert dbg (Nat.ltb (length msg) 32 || negb (all_zero w)) (byte_xor dbg msg w).
+    dassert dbg (Nat.ltb (length w) 32 || negb (all_zero w)) (byte_xor dbg msg w).
 
   Definition tl_seal (pk : pkpt) (message id dst : bytes) (seed : bytes)
     : M (res (pkpt * bytes * bytes)) :=
